@@ -15,8 +15,6 @@ Fixpoint flatten_raw (r : raw) : list arg :=
   | Raw c t len full ch => AL [aN c; aN t; aN len; aN full; aN (lenN ch)] :: flat_map flatten_raw ch
   end.
 
-Definition arg_of_ix (i : rpm_index) : arg := AL [aN (ix_tag i); aN (ix_type i); aN (ix_off i); aN (ix_count i)].
-
 (* ---- the model's observation ---- *)
 Definition run_C08 (op : bytes) (input : arg) : arg :=
   let data := arg_bytes (arg_nth 0 input) in
@@ -37,7 +35,8 @@ Definition run_C08 (op : bytes) (input : arg) : arg :=
   else if bytes_eqb op (bs "b64") then obs_cres (fun d => aN (lenN d)) (b64_decode_any data)
   else if bytes_eqb op (bs "jks") then obs_cres aN (jks_parse data)
   else if bytes_eqb op (bs "rpm") then
-    obs_cres (fun hs => AL (map (fun h => AL (map arg_of_ix h)) hs)) (rpm_parse data)
+    (* file.RPMFile: accepted or refused (pre-validation rpmCheckIndex, then the library) *)
+    obs_cres (fun _ => AL []) (rpm_file data)
   else if bytes_eqb op (bs "stream") then
     (* input: (length-or--1 pattern): the CLI reads min(length, cap) bytes and exits 0 *)
     let len := arg_Z (arg_nth 0 input) in
@@ -86,8 +85,6 @@ Definition diagnose (comp : bytes) (d : arg) : bytes :=
   | AB data =>
       if prefix_of jks_magic data || prefix_of jceks_magic data then
         (if log_trusting (snd (jks_parse data)) then bs " [jks-go readJKSEntries: a length or count field exceeds the bytes remaining]" else [])
-      else if prefix_of [237; 171; 238; 219] data then
-        (if log_trusting (snd (rpm_parse data)) then bs " [go-rpm ReadPackageHeader: a length or count field exceeds the bytes remaining]" else [])
       else []
   | _ => []
   end.
